@@ -50,6 +50,10 @@ func issuePayload(w, i, size int) []byte {
 }
 
 func checkIssue(env *fw.Env, c IssueCase) *fw.Failure {
+	if c.Workers == 0 {
+		env.Rec.Discard("replay-file-of-another-test")
+		return nil
+	}
 	var enc encoder.Encoder = encoder.NewBase64Encoder()
 	var g *encrypter.GCMEncrypter
 	if c.Key != "" {
